@@ -112,4 +112,77 @@ example : lineAndColumnEof (strBytes "JSIGHT 0.3\n### x") 16 = (2, 6) := by deci
 example : lineAndColumnEof (strBytes "abc\n") 4 = (2, 1) := by decide +kernel
 example : lineAndColumn (strBytes "a\r\nbc") 3 = (2, 1) := by decide +kernel
 
+/-! ### The quote of a location is cut out of the file around the position (jerr.quote) -/
+
+theorem takeWhile_len_le {α} (p : α → Bool) (l : List α) : (l.takeWhile p).length ≤ l.length := by
+  induction l with
+  | nil => simp
+  | cons a l ih => simp only [List.takeWhile_cons]; split <;> simp <;> omega
+
+theorem endOfLine_le_length (b : Bytes) (index : Nat) (h : index ≤ b.length) :
+    endOfLine b index ≤ b.length := by
+  have h1 : ((b.drop index).takeWhile (· != newLineSymbol b)).length ≤ b.length - index := by
+    have := takeWhile_len_le (· != newLineSymbol b) (b.drop index)
+    simpa using this
+  unfold endOfLine
+  simp only
+  repeat' split
+  all_goals omega
+
+theorem endOfLine_ge (b : Bytes) (index : Nat) : index ≤ endOfLine b index + 1 := by
+  unfold endOfLine
+  simp only
+  repeat' split
+  all_goals omega
+
+theorem beginningOfLineAux_le (b : Array UInt8) (nl : UInt8) (index fuel i : Nat) (h : i ≤ index) :
+    beginningOfLineAux b nl index fuel i ≤ index := by
+  induction fuel generalizing i with
+  | zero => simpa [beginningOfLineAux] using h
+  | succ f ih =>
+    simp only [beginningOfLineAux]
+    split
+    · rename_i hc
+      simp only [Bool.and_eq_true, bne_iff_ne, ne_eq] at hc
+      omega
+    · split
+      · omega
+      · exact ih _ (by omega)
+
+theorem beginningOfLine_le (b : Bytes) (p bg : Nat) (hp : p < b.length)
+    (h : beginningOfLine b p = some bg) : bg ≤ p := by
+  unfold beginningOfLine at h
+  split at h
+  · cases h
+  · simp only [Option.some.injEq] at h
+    subst h
+    apply beginningOfLineAux_le
+    split <;> omega
+
+/-- the quote of a position inside the file is cut out of the file, from a begin at or before the position
+    to an end inside the file that is not before the position's line (at most the one '\r' of a CRLF pair back) -/
+theorem quote_is_slice (b : Bytes) (p : Nat) (hp : p < b.length) (q : Bytes) (h : quote b p = some q) :
+    ∃ bg en, bg ≤ p ∧ p ≤ en + 1 ∧ en ≤ b.length ∧ bg ≤ en ∧
+      (q = trimSpacesFromLeft ((b.drop bg).take (en - bg)) ∨
+       (200 < en - bg ∧ q = trimSpacesFromLeft ((b.drop bg).take 197) ++ [46, 46, 46])) := by
+  unfold quote at h
+  split at h
+  · rename_i he; simp at he; subst he; simp at hp
+  · split at h
+    · cases h
+    · rename_i bg hbg
+      have h1 := beginningOfLine_le b p bg hp hbg
+      have h2 := endOfLine_le_length b p (by omega)
+      have h3 := endOfLine_ge b p
+      refine ⟨bg, endOfLine b p, h1, h3, h2, ?_⟩
+      simp only at h
+      repeat' split at h
+      all_goals cases h
+      all_goals refine ⟨by omega, ?_⟩
+      · right; exact ⟨by omega, rfl⟩
+      · left; rfl
+
+/-- non-vacuity: a CRLF file, position in the second line -/
+example : quote (strBytes "ab\r\n  cd\r\nef") 7 = some (strBytes "cd") := by decide +kernel
+
 end JsightVerif.Props.C07
